@@ -6,7 +6,7 @@
     [nthreads c], any number of rounds, any sample sizes, any interleaving
     ([reachable]: any sequence of labels) and any fault set ([fault c]). *)
 From Coq Require Import List Arith Bool NArith.
-From DivanV Require Import Model.Round Proofs.RoundBase Proofs.RoundInv Proofs.RoundTerm Proofs.RoundAlloc Proofs.RoundEx Proofs.RoundMain.
+From DivanV Require Import Model.Round Proofs.RoundBase Proofs.RoundInv Proofs.RoundTerm Proofs.RoundAlloc Proofs.RoundEx Proofs.RoundMain Proofs.RoundMon.
 Import ListNotations.
 
 (** The invariant evaluated by the exhaustive explorer ([inv_b], DESIGN.md
@@ -118,6 +118,22 @@ Theorem C08_own_allocs_only_own : forall c c' i r,
   own_allocs c i r = own_allocs c' i r.
 Proof. exact own_allocs_only_own. Qed.
 Print Assumptions C08_own_allocs_only_own.
+
+(** The boolean specification evaluated on the implementation's observed global
+    logs ([log_sb], a monitor independent of [step]) accepts the log of every
+    execution of the model - any thread count, interleaving and fault set
+    (sample size fixed for the run, as when sample_size is given). *)
+Theorem C08_log_sb_model : forall c n,
+  (forall r, ssize c r = n) -> 1 <= nthreads c -> guard c = true ->
+  forall tr, log_sb (nthreads c) n (events c (init c) tr) = true.
+Proof. exact log_sb_model. Qed.
+Print Assumptions C08_log_sb_model.
+
+Theorem C08_hyps_log_sb :
+  (forall r, ssize (cfg2 true flt1) r = 1) /\
+  length (events (cfg2 true flt1) (init (cfg2 true flt1)) (tr_upto_panic ++ [t1; t1; t0; t0; t0; LJoin])) = 18.
+Proof. exact log_sb_hyps. Qed.
+Print Assumptions C08_hyps_log_sb.
 
 (** The hypotheses are satisfiable by non-trivial executions. *)
 Theorem C08_hyps_phase_order :
